@@ -2,6 +2,7 @@ package rules
 
 import (
 	"go/token"
+	"go/types"
 	"strings"
 
 	"golang.org/x/tools/go/ssa"
@@ -223,6 +224,7 @@ func c02(r *core.Run) {
 	c02Abst(r)
 	c02Comm(r)
 	c03GateSwap(r, "C02.SWAP")
+	c02VirtualView(r)
 	c02DeclOrder(r)
 	c02PhiOrder(r)
 	c02TripPolarity(r)
@@ -754,4 +756,211 @@ func c02DeclOrder(r *core.Run) {
 		}
 	}
 	r.Floor("C02.DECLORDER", "returns of freshly collected fingerprint results", n, 1)
+}
+
+// c02VirtualView: once a branch is exchanged virtually, everything that depends on the ORDER of a block's two
+// successors must read it through the accessor that knows the exchange — the If line already does; the block
+// numbering must too, or `a >= b {A} else {B}` and `a < b {B} else {A}` number their blocks differently. Decided:
+// (1) a function of the canonicaliser that produces a block order ([]*BasicBlock from a *Function) loads no
+// Succs field directly and calls the accessor; (2) outside the accessor and the function that records exchanges,
+// no direct load of Succs is indexed with the constant 1 (only an If has a second successor).
+func c02VirtualView(r *core.Run) {
+	p := r.P
+	isBlockSlice := func(t types.Type) bool {
+		sl, ok := t.Underlying().(*types.Slice)
+		if !ok {
+			return false
+		}
+		pt, isPtr := sl.Elem().(*types.Pointer)
+		return isPtr && strings.HasSuffix(pt.Elem().String(), "ssa.BasicBlock")
+	}
+	var accessor *ssa.Function
+	recorders := map[*ssa.Function]bool{}
+	for _, fn := range p.FuncsIn("pkg/analysis/ir") {
+		rt := resultTypes(fn)
+		if len(rt) == 1 && isBlockSlice(rt[0]) && len(fn.Params) == 2 && strings.HasSuffix(fn.Params[1].Type().String(), "ssa.BasicBlock") {
+			readsView := false
+			core.InstrsOf(fn, func(in ssa.Instruction) {
+				if lk, ok := in.(*ssa.Lookup); ok && lk.Index == ssa.Value(fn.Params[1]) {
+					readsView = true
+				}
+			})
+			if readsView {
+				accessor = fn
+			}
+		}
+		core.InstrsOf(fn, func(in ssa.Instruction) {
+			if sto, ok := in.(*ssa.Store); ok {
+				if ar, isArr := core.Deref(sto.Addr.Type()).Underlying().(*types.Array); isArr && strings.HasSuffix(ar.Elem().String(), "ssa.BasicBlock") {
+					recorders[fn] = true
+				}
+				if fa, isFA := sto.Addr.(*ssa.FieldAddr); isFA {
+					if ar, isArr := deref1(fa.Type()).Underlying().(*types.Array); isArr && strings.HasSuffix(ar.Elem().String(), "ssa.BasicBlock") {
+						recorders[fn] = true
+					}
+				}
+				if ia, isIA := sto.Addr.(*ssa.IndexAddr); isIA {
+					if ar, isArr := core.Deref(ia.X.Type()).Underlying().(*types.Array); isArr && ar.Len() == 2 && strings.HasSuffix(ar.Elem().String(), "ssa.BasicBlock") {
+						recorders[fn] = true // the exchanged pair of an If
+					}
+				}
+			}
+		})
+	}
+	if !r.Floor("C02.SWAP", "accessor of the virtual successor order", map[bool]int{true: 1, false: 0}[accessor != nil], 1) {
+		return
+	}
+	directSuccs := func(v ssa.Value) bool {
+		u, ok := v.(*ssa.UnOp)
+		if !ok || u.Op != token.MUL {
+			return false
+		}
+		fa, ok := u.X.(*ssa.FieldAddr)
+		return ok && strings.HasSuffix(core.Deref(fa.X.Type()).String(), "ssa.BasicBlock") && core.FieldName(fa.X.Type(), fa.Field) == "Succs"
+	}
+	nOrder := 0
+	for _, fn := range p.FuncsIn("pkg/analysis/ir") {
+		if fn == accessor || recorders[fn] {
+			continue
+		}
+		fnm := core.FuncName(fn)
+		rt := resultTypes(fn)
+		orders := len(rt) == 1 && isBlockSlice(rt[0]) && fn.Parent() == nil
+		if orders {
+			hasFn := false
+			for _, pa := range fn.Params {
+				if isSSAFunctionPtr(pa.Type()) {
+					hasFn = true
+				}
+			}
+			orders = hasFn
+		}
+		direct, viaAccessor := token.NoPos, false
+		core.InstrsOf(fn, func(in ssa.Instruction) {
+			if v, ok := in.(ssa.Value); ok && directSuccs(v) && direct == token.NoPos {
+				direct = in.Pos()
+			}
+			if c := core.CallOf(in); c != nil && core.StaticCallee(c) == accessor {
+				viaAccessor = true
+			}
+			if ia, ok := in.(*ssa.IndexAddr); ok && directSuccs(ia.X) {
+				if k, isK := core.ConstInt(ia.Index); isK && k == 1 {
+					r.Fail("C02.SWAP", fnm+"#second-successor-read-directly", in.Pos(), "the second successor of a block is read from the real successor list, not through "+core.FuncName(accessor)+": an exchanged branch is seen in its source order here and in its exchanged order on the If line")
+				}
+			}
+		})
+		if orders {
+			nOrder++
+			r.Check(direct == token.NoPos && viaAccessor, "C02.SWAP", fnm+"#block-order-through-virtual-view", fn.Pos(), "the block order is computed from the virtual successor order", "the block order is computed from the real successor list (or without "+core.FuncName(accessor)+"): blocks of an exchanged branch are numbered in source order while the If line prints the exchanged order, so the two spellings of one test get different IR")
+		}
+	}
+	r.Floor("C02.SWAP", "functions that produce the block order", nOrder, 1)
+
+	// (3) instructions that are rendered in another block than their own (hoisted calls) are collected while walking
+	// the blocks in an order; that order is the canonical one (the result of an ordering function), not the real
+	// Function.Blocks order, or the two arms of an exchanged branch contribute in exchanged order
+	isBlockInstrMap := func(t types.Type) bool {
+		m, ok := t.Underlying().(*types.Map)
+		if !ok || !strings.HasSuffix(m.Key().String(), "ssa.BasicBlock") {
+			return false
+		}
+		sl, ok := m.Elem().Underlying().(*types.Slice)
+		return ok && strings.HasSuffix(sl.Elem().String(), "ssa.Instruction")
+	}
+	orderFns := map[*ssa.Function]bool{}
+	for _, fn := range p.FuncsIn("pkg/analysis/ir") {
+		rt := resultTypes(fn)
+		if len(rt) == 1 && isBlockSlice(rt[0]) && fn.Parent() == nil && fn != accessor {
+			orderFns[fn] = true
+		}
+	}
+	var blockListOf func(fn *ssa.Function, v ssa.Value, d int) (string, token.Pos)
+	blockListOf = func(fn *ssa.Function, v ssa.Value, d int) (string, token.Pos) {
+		// v: the slice of blocks a loop walks; classify where it comes from
+		v = core.Unwrap(v)
+		if d > 3 {
+			return "unknown", v.Pos()
+		}
+		if u, ok := v.(*ssa.UnOp); ok && u.Op == token.MUL {
+			if fa, isFA := u.X.(*ssa.FieldAddr); isFA && isSSAFunctionPtr(fa.X.Type()) && core.FieldName(fa.X.Type(), fa.Field) == "Blocks" {
+				return "real", u.Pos()
+			}
+		}
+		for _, o := range core.Origins(v) {
+			if c, ok := o.(*ssa.Call); ok && orderFns[core.StaticCallee(&c.Call)] {
+				return "canonical", c.Pos()
+			}
+			if ap, ok := isBuiltinCall(o, "append"); ok {
+				return blockListOf(fn, ap.Call.Args[0], d+1)
+			}
+		}
+		if prm, ok := v.(*ssa.Parameter); ok {
+			res, pos := "canonical", prm.Pos()
+			sites := callersOf(p, fn)
+			if len(sites) == 0 {
+				return "unknown", prm.Pos()
+			}
+			for i, q := range fn.Params {
+				if q != prm {
+					continue
+				}
+				for _, site := range sites {
+					args := core.CallArgs(site.Common())
+					if i >= len(args) {
+						return "unknown", prm.Pos()
+					}
+					if k, ps := blockListOf(site.Parent(), args[i], d+1); k != "canonical" {
+						res, pos = k, ps
+					}
+				}
+			}
+			return res, pos
+		}
+		return "unknown", v.Pos()
+	}
+	nMoved := 0
+	for _, fn := range p.FuncsIn("pkg/analysis/ir") {
+		core.InstrsOf(fn, func(in ssa.Instruction) {
+			mu, ok := in.(*ssa.MapUpdate)
+			if !ok || !isBlockInstrMap(mu.Map.Type()) {
+				return
+			}
+			ap, isApp := isBuiltinCall(mu.Value, "append")
+			if !isApp {
+				return
+			}
+			// the walked block: the appended instruction is an element of <block>.Instrs
+			elems, _ := varargElems(ap.Call.Args[1])
+			for _, e := range elems {
+				var walked ssa.Value
+				for _, o := range core.Origins(core.Unwrap(e)) {
+					if u, ok := o.(*ssa.UnOp); ok && u.Op == token.MUL {
+						if ia, isIA := u.X.(*ssa.IndexAddr); isIA {
+							if base, isInstrs := core.FieldLoad(ia.X, "Instrs"); isInstrs {
+								walked = base
+							}
+						}
+					}
+				}
+				if walked == nil || core.Unwrap(mu.Key) == core.Unwrap(walked) {
+					continue // the block's own list: order of the walk is irrelevant
+				}
+				// walked = blocks[i]
+				wu, ok := core.Unwrap(walked).(*ssa.UnOp)
+				if !ok {
+					continue
+				}
+				wia, ok := wu.X.(*ssa.IndexAddr)
+				if !ok {
+					continue
+				}
+				nMoved++
+				kind, pos := blockListOf(fn, wia.X, 0)
+				r.Check(kind == "canonical", "C02.SWAP", core.FuncName(fn)+"#moved-instructions-in-canonical-order", pos,
+					"instructions rendered in another block are collected while walking the canonical block order",
+					"instructions rendered in another block (hoisted calls) are collected while walking the "+kind+" block list: two hoisted calls from the two arms of a branch land in the pre-header in source order, so the opposite test with exchanged arms numbers them differently")
+			}
+		})
+	}
+	r.Floor("C02.SWAP", "collections of instructions moved to another block", nMoved, 1)
 }
